@@ -49,6 +49,7 @@ type GenCfg struct {
 	KeyHints   []string // byte strings (hex) that keys at lower levels should often start with
 	Reopen     bool     // engine bases: occasionally close and reopen the engine mid-history
 	ECompact   bool     // occasionally forward a Compact to the engine (observing nil / error)
+	Stat       bool     // occasionally ask for a Stat property (observing nil / error)
 }
 
 // lazyDepths returns the depths of the "z" (LazyFlushable) layers of a header.
@@ -140,6 +141,10 @@ func Gen(r *rand.Rand, c GenCfg) []string {
 		}
 		if c.Reopen && nsnap == 0 && nlive == 0 && r.Intn(40) == 0 {
 			emit("reopen")
+			continue
+		}
+		if c.Stat && r.Intn(40) == 0 {
+			emit("stat", handle(), strconv.Itoa(r.Intn(7)))
 			continue
 		}
 		if c.ECompact && r.Intn(60) == 0 {
